@@ -402,8 +402,10 @@ def scan_lexicons(source: AnyPath) -> list[ScanInfo]:
         b'''<(Lexicon|LexiconExtension|Extends)\\b((?:[^>"']|"[^"]*"|'[^']*')*)>''',
         flags=re.M
     )
+    # match whole attributes (any name) so that text inside the quoted
+    # value of one attribute is never mistaken for another attribute
     attr_re = re.compile(
-        b'''\\b(id|version|label)\\s*=\\s*("[^"]*"|'[^']*')''', flags=re.M
+        b'''([^\\s=<>"'/]+)\\s*=\\s*("[^"]*"|'[^']*')''', flags=re.M
     )
 
     with open(source, 'rb') as fh:
@@ -413,6 +415,7 @@ def scan_lexicons(source: AnyPath) -> list[ScanInfo]:
                 _m.group(1).decode("utf-8"):
                 _unescape_attribute(_m.group(2)[1:-1].decode("utf-8"))
                 for _m in attr_re.finditer(remainder)
+                if _m.group(1) in (b'id', b'version', b'label')
             }
             info: ScanInfo = {
                 "id": attrs["id"],
